@@ -4,7 +4,7 @@
    PulseStorage over the same backend loads (comparison flags computed on the real objects).
    check_corr: the model predicts exactly that observation.  check_spec: the property itself on the observation. *)
 From Coq Require Import String List ZArith QArith Bool.
-Require Import QV.common.Util QV.C10.Model QV.C10.Iface QV.C10.Hist.
+Require Import QV.common.Util QV.C10.Model QV.C10.Iface QV.C10.Hist QV.C10.Dur QV.C10.Tx.
 Import ListNotations.
 Open Scope string_scope.
 
@@ -70,6 +70,9 @@ Inductive case :=
         (impl_be : list (string * json))
         (finals : list (string * pt * bool))
         (impl_loads : list (nat * lobs))          (* per root index whose key is in the backend at the end *)
+(* round 4: the declared duration.  Per probe assignment: the oracle table atom -> value and, per root, the value of the
+   implementation's `duration` expression (None: the property raised, or the value is not a rational number) *)
+| CDur (roots : list pt) (probes : list (atab * list (option Q)))
 | CCrash.
 
 Fixpoint lookup_nat {A} (k : nat) (l : list (nat * A)) : option A :=
@@ -143,7 +146,7 @@ Definition check_corr (c : case) : bool :=
       match resolve_ops roots ops with
       | None => false
       | Some mops =>
-      let '(h, res) := hrun (empty_h []) mops in
+      let '(h, res) := hrun_tx (empty_h []) mops in
       list_eqb sres_eqb (map sres_of res) impl_res
       && be_eqb (hbe h) impl_be
       && forallb (fun il => match nth_error roots (fst il) with
@@ -163,7 +166,7 @@ Definition check_corr (c : case) : bool :=
       | _, _ => false
       end
   | CHist ops impl_res impl_be finals impl_loads =>
-      let '(h, res) := hrun2 (empty_h []) ops in
+      let '(h, res) := hrun2_tx (empty_h []) ops in
       list_eqb sres_eqb (map sres_of res) impl_res
       && be_eqb (hbe h) impl_be
       && forallb (fun il => match nth_error finals (fst il) with
@@ -172,7 +175,28 @@ Definition check_corr (c : case) : bool :=
                                 if cmp then lobs_corr m (snd il)
                                 else Bool.eqb (lo_ok m) (lo_ok (snd il)) && (negb (lo_ok m) || Bool.eqb (lo_eq m) (lo_eq (snd il)))
                             | None => false end) impl_loads
+  | CDur roots probes =>
+      forallb (fun pr =>
+        Nat.eqb (length (snd pr)) (length roots) &&
+        forallb (fun po =>
+          match dur_of (fst po), snd po with
+          | Err _, None => true
+          | Err _, Some _ => false                 (* the model says the property raises *)
+          | Ok d, Some q => match deval (fst pr) d with Some q' => Qeq_bool q q' | None => true end
+          | Ok _, None => true                     (* not a rational value: not compared *)
+          end) (combine roots (snd pr))) probes
   | CCrash => false
+  end.
+
+(* how many duration values of a CDur case the model actually predicts (non-vacuity, reported by the harness) *)
+Definition dur_compared (c : case) : nat :=
+  match c with
+  | CDur roots probes =>
+      fold_left (fun n pr => fold_left (fun n po =>
+        match dur_of (fst po), snd po with
+        | Ok d, Some _ => match deval (fst pr) d with Some _ => S n | None => n end
+        | _, _ => n end) (combine roots (snd pr)) n) probes 0%nat
+  | _ => 0%nat
   end.
 
 (* ---- the property on the implementation's observation ------------------------------------------------------------ *)
@@ -274,7 +298,7 @@ Definition kstep (K : list (string * pt)) (o : hop) (r : sres) : list (string * 
    storage is taken by that very object; a store under a taken key succeeds (as a no-op) for that very object *)
 Definition all_encodable' (p : pt) : bool := forallb node_encodable (nodes p).
 Definition kenc_ok (K : list (string * pt)) (p : pt) : bool :=
-  all_encodable' p
+  all_encodable' p && ids_consistent [p]       (* one identifier, one object within the transaction (repo a5bca40) *)
   && forallb (fun h => match lookup (fst h) K with Some q => N.eqb (pt_oid q) (pt_oid (snd h)) | None => false end)
              (hits (map fst K) true p).
 Definition kres_ok (K : list (string * pt)) (o : hop) (r : sres) : bool :=
@@ -360,5 +384,6 @@ Definition check_spec (c : case) : bool :=
       (* no identifier clashes, own identifiers as keys, encodable: storing and overwriting never fail *)
       && (negb (hist_clean ops)
           || forallb (fun orr => match fst orr with HDel _ _ => true | _ => sres_eqb (snd orr) SOk end) (combine ops impl_res))
+  | CDur _ _ => true          (* model correspondence only: the property on durations is the lo_dur flag of the store cases *)
   | CCrash => false
   end.
